@@ -135,11 +135,13 @@ def main(mod, argv=None):
     violations, known_hits, unreproduced = [], [], []
     for tag, cs in sorted(by_tag.items()):
         confirmed = None
-        for c in cs[:3]:
+        for c in cs[:6]:
             try:
                 ok, detail = mod.replay(c)
             except BaseException as e:  # noqa
                 ok, detail = False, 'replay raised %s: %s' % (type(e).__name__, e)
+            if os.environ.get('VF_DEBUG'):
+                print('REPLAY %s -> %s: %s' % (tag, ok, json.dumps(jsonable(c.get('data')))[:300]), file=sys.stderr)
             if ok:
                 confirmed = (c, detail)
                 break
